@@ -147,9 +147,11 @@ impl GameSpy3 {
 
         let mut values: Vec<Vec<u8>> = Vec::new();
 
-        let mut reached_expected_packets_size = false;
+        // The packet flagged as last has the highest id, the packets can arrive in any order
+        let mut expected_packets: Option<usize> = None;
+        let mut received_packets = 0;
 
-        while !reached_expected_packets_size {
+        while expected_packets.map_or(true, |expected| received_packets < expected) {
             let received_data = self.receive(None, 0)?;
             let mut buf = Buffer::<BigEndian>::new(&received_data);
 
@@ -167,15 +169,20 @@ impl GameSpy3 {
             let packet_id = (id & 0x7f) as usize;
             buf.move_cursor(1)?; //unknown byte regarding packet no.
 
-            if is_last && packet_id + 1 != values.len() {
-                reached_expected_packets_size = true;
+            if is_last {
+                expected_packets = Some(packet_id + 1);
             }
 
             while values.len() <= packet_id {
                 values.push(Vec::new());
             }
 
+            if !values[packet_id].is_empty() {
+                return Err(PacketBad.context("Received the same packet twice"));
+            }
+
             values[packet_id] = buf.remaining_bytes().to_vec();
+            received_packets += 1;
         }
 
         if values.iter().any(Vec::is_empty) {
